@@ -33,11 +33,26 @@ def gen_g(out):
     return np.array([(-(i + 1) if i % 2 == 0 else (i + 1)) for i in range(1, n + 1)], dtype=np.float64).reshape(out.data.shape)
 
 
-def both(sg, build_ops, fused, composed, tol):
+def both_all(sg, build_ops, fused, composed, tol):
+    """both(...) for every non-empty subset of operands requiring grad (a mix of tracked and untracked operands)"""
+    K = len(build_ops())
+    if K == 1 or K > 3:
+        return both(sg, build_ops, fused, composed, tol)
+    for mask in range(1, 2 ** K):
+        m = both(sg, build_ops, fused, composed, tol, rg=[bool(mask >> k & 1) for k in range(K)])
+        if m:
+            return "requires_grad=%s: %s" % ([bool(mask >> k & 1) for k in range(K)], m)
+    return None
+
+
+def both(sg, build_ops, fused, composed, tol, rg=None):
     """runs both forms on fresh copies of the same operands; returns message or None"""
     res = []
     for fn in (fused, composed):
         T = build_ops()
+        if rg is not None:
+            for t, r in zip(T, rg):
+                t.requires_grad = r
         try:
             with repo.quiet(), np.errstate(all="ignore"):
                 out = fn(*T)
@@ -263,7 +278,7 @@ def run(ctx):
             continue
         rep.case("id:" + json.dumps(c, sort_keys=True))
         rep.traces += 1
-        m = both(sg, built[0], built[1], built[2], 1e-9)
+        m = both_all(sg, built[0], built[1], built[2], 1e-9)
         if m:
             rep.violation("identity:%s" % c["id"], "%s on %s: %s" % (c["id"], json.dumps(c), m), dict(idcase=c))
     rep.sample(res.cases[len(res.cases) // 2])
